@@ -592,7 +592,7 @@ class GenJumps(Gen):
     so the output is the control-flow history."""
 
     FIXABLE = ["div", "subscript", "overflow", "left", "sub_div", "fn_div"]
-    UNFIXABLE = ["read", "return_without_gosub", "chr"]
+    UNFIXABLE = ["read", "return_without_gosub", "chr", "writeback"]
 
     def __init__(self, rng, **kw):
         Gen.__init__(self, rng, **kw)
@@ -631,6 +631,16 @@ class GenJumps(Gen):
             return {"k": "callsub", "name": "FaultSub", "args": [("var", "Z%")]}
         if kind == "fn_div":
             return {"k": "assign", "lhs": ("var", "A%"), "rhs": ("bin", "+", ("call", "FaultFn%", [("var", "Z%")]), ("lit", "%", 1))}
+        if kind == "writeback":
+            # the callee moves the SHARED subscript out of range, so writing back the first argument fails
+            # after the call has returned; later calls show whether stale write-back values linger
+            return {"k": "multi", "stmts": [
+                {"k": "assign", "lhs": ("var", "SX%"), "rhs": ("lit", "%", 1)},
+                {"k": "callsub", "name": "MoveIdx", "args": [("idx", "AR%", [("var", "SX%")]), ("var", "B%")]},
+                {"k": "print", "items": [("e", ("lit", "$", "wb")), (";",), ("e", ("var", "B%")), (";",), ("e", ("var", "SX%"))]},
+                {"k": "assign", "lhs": ("var", "SX%"), "rhs": ("lit", "%", 2)},
+                {"k": "callsub", "name": "Tag", "args": [("var", "T$"), ("var", "C%")]},
+                {"k": "print", "items": [("e", ("var", "T$")), (";",), ("e", ("var", "C%")), (";",), ("e", ("idx", "AR%", [("lit", "%", 1)])), (";",), ("e", ("idx", "AR%", [("lit", "%", 2)]))]}]}
         if kind == "read":
             return {"k": "read", "vars": [("var", "A%")]}
         if kind == "return_without_gosub":
@@ -782,7 +792,8 @@ class GenJumps(Gen):
         self.resume_mode = r.choice(["retry", "next", "next", "label"])
         self.resume_labels = []
         self.pending_main_labels = []
-        main = [{"k": "dim", "text": "DIM AR%(1 TO 3)", "decls": [{"name": "AR%", "type": "%", "dims": [(("lit", "%", 1), ("lit", "%", 3))]}]},
+        main = [{"k": "dim", "text": "DIM SHARED SX%", "decls": [{"name": "SX%", "type": "%", "shared": True}]},
+                {"k": "dim", "text": "DIM AR%(1 TO 3)", "decls": [{"name": "AR%", "type": "%", "dims": [(("lit", "%", 1), ("lit", "%", 3))]}]},
                 {"k": "assign", "lhs": ("var", "IX%"), "rhs": ("lit", "%", r.choice([9, 0, 4]))},
                 {"k": "assign", "lhs": ("var", "BIG&"), "rhs": ("lit", "&", 40000)},
                 {"k": "assign", "lhs": ("var", "NEG%"), "rhs": ("lit", "%", -1)}]
@@ -821,6 +832,13 @@ class GenJumps(Gen):
              "body": [{"k": "print", "items": [("e", ("lit", "$", "FaultSub in"))]},
                       {"k": "assign", "lhs": ("var", "Y%"), "rhs": ("bin", "/", ("lit", "%", 10), ("var", "X%"))},
                       {"k": "print", "items": [("e", ("lit", "$", "FaultSub out")), (";",), ("e", ("var", "Y%"))]}]},
+            {"k": "sub", "name": "MoveIdx", "params": [("X%", "%"), ("Y%", "%")], "static": False, "rtype": None,
+             "body": [{"k": "assign", "lhs": ("var", "SX%"), "rhs": ("lit", "%", 9)},
+                      {"k": "assign", "lhs": ("var", "X%"), "rhs": ("bin", "+", ("var", "X%"), ("lit", "%", 7))},
+                      {"k": "assign", "lhs": ("var", "Y%"), "rhs": ("bin", "+", ("var", "Y%"), ("lit", "%", 1))}]},
+            {"k": "sub", "name": "Tag", "params": [("P$", "$"), ("Q%", "%")], "static": False, "rtype": None,
+             "body": [{"k": "assign", "lhs": ("var", "P$"), "rhs": ("bin", "+", ("var", "P$"), ("lit", "$", "#"))},
+                      {"k": "assign", "lhs": ("var", "Q%"), "rhs": ("bin", "+", ("var", "Q%"), ("lit", "%", 1))}]},
             {"k": "function", "name": "FaultFn%", "params": [("X%", "%")], "static": False, "rtype": "%",
              "body": [{"k": "print", "items": [("e", ("lit", "$", "FaultFn in"))]},
                       {"k": "assign", "lhs": ("var", "FaultFn%"), "rhs": ("bin", "/", ("lit", "%", 20), ("var", "X%"))}]},
@@ -830,4 +848,4 @@ class GenJumps(Gen):
         number_statements(main, counter)
         for p in procs:
             number_statements(p["body"], counter)
-        return {"main": main, "procs": procs, "shared": set()}
+        return {"main": main, "procs": procs, "shared": set(["SX%"])}
